@@ -3,6 +3,7 @@ package hist
 import (
 	"fmt"
 	"math/big"
+	"strings"
 
 	"verifsim/alpha"
 	"verifsim/prng"
@@ -923,7 +924,17 @@ func (g *Gen) relativesMacro() bool {
 	for q == p {
 		q = rng.Intn(len(w.P))
 	}
-	switch rng.Intn(6) {
+	switch rng.Intn(7) {
+	case 6: // another point with bit-identical X and Y: (X : Y : -Z : -T) = p + (0,-1)
+		if len(w.E) >= 4 {
+			e := permOf(rng, len(w.E))[:4]
+			g.push(Call{Op: "Point.ExtendedCoordinates", R: p, E: append([]int{}, e...)})
+			g.push(Call{Op: "Element.Negate", R: e[2], E: []int{e[2]}})
+			g.push(Call{Op: "Element.Negate", R: e[3], E: []int{e[3]}})
+			g.push(Call{Op: "Point.SetExtendedCoordinates", R: q, E: append([]int{}, e...)})
+		} else {
+			g.push(Call{Op: "Point.Negate", R: q, P: []int{p}})
+		}
 	case 0:
 		g.push(Call{Op: "Point.Set", R: q, P: []int{p}})
 	case 1:
@@ -952,7 +963,8 @@ func (g *Gen) relativesMacro() bool {
 		g.push(Call{Op: "Point.Add", R: q, P: []int{p, q}})
 	}
 	g.pendingPair = [2]int{p, q}
-	g.pendingOp = []string{"Point.Add", "Point.Subtract", "Point.Equal", "Point.Add", "Point.Subtract", "Point.VarTimeMultiScalarMult", "Point.MultiScalarMult"}[rng.Intn(7)]
+	g.pendingOp = []string{"Point.Add", "Point.Subtract", "Point.Equal", "Point.Add", "Point.Subtract", "Point.VarTimeMultiScalarMult", "Point.MultiScalarMult",
+		"pair:Point.VarTimeDoubleScalarBaseMult", "pair:Point.ScalarMult", "pair:Point.VarTimeDoubleScalarBaseMult", "pair:Point.MultByCofactor", "pair:Point.Bytes"}[rng.Intn(12)]
 	g.havePending = true
 	return true
 }
@@ -988,6 +1000,29 @@ func (g *Gen) flushPending() {
 	ops := []int{p, q}
 	if rng.Bool(0.5) {
 		ops = []int{q, p}
+	}
+	if strings.HasPrefix(g.pendingOp, "pair:") {
+		// the same one-point operation on both relatives, back to back (caches keyed
+		// on part of the operand)
+		name := g.pendingOp[len("pair:"):]
+		if len(w.S) == 0 {
+			return
+		}
+		s1, s2 := rng.Intn(len(w.S)), rng.Intn(len(w.S))
+		for _, x := range ops {
+			r := rng.Intn(len(w.P))
+			switch name {
+			case "Point.VarTimeDoubleScalarBaseMult":
+				g.push(Call{Op: name, R: r, P: []int{x}, S: []int{s1, s2}})
+			case "Point.ScalarMult":
+				g.push(Call{Op: name, R: r, P: []int{x}, S: []int{s1}})
+			case "Point.MultByCofactor":
+				g.push(Call{Op: name, R: r, P: []int{x}})
+			default:
+				g.push(Call{Op: "Point.Bytes", R: x})
+			}
+		}
+		return
 	}
 	switch g.pendingOp {
 	case "Point.Equal":
